@@ -46,6 +46,13 @@ def snapshot(v):
 
 
 class _IsToSame(ast.NodeTransformer):
+    def visit_Call(self, node):
+        self.generic_visit(node)
+        if isinstance(node.func, ast.Name) and node.func.id == "implies" and len(node.args) == 2 and not node.keywords:
+            # implies(a, b) is lazy in its consequent, like the logical connective it stands for
+            return ast.BoolOp(op=ast.Or(), values=[ast.UnaryOp(op=ast.Not(), operand=node.args[0]), node.args[1]])
+        return node
+
     def visit_Compare(self, node):
         self.generic_visit(node)
         if len(node.ops) == 1 and isinstance(node.ops[0], (ast.Is, ast.IsNot)):
